@@ -11,14 +11,15 @@ META = {
             "rank, numberer and EVERY processing order of the incoming messages: after sync the index set is strictly ordered (no pair twice, "
             "new pairs public and numbered by the numberer), every remote list is ordered and duplicate-free, every entry refers to a pair of "
             "the re-sorted set and repairLocalIndexPointers resolves it without leaving the set (C13_sorted_valid_monotone, C13_index_set_strict, "
-            "C13_repair_total); nothing known before is lost or altered (monotone); what a rank believed about a neighbour is completed there "
-            "with all third-party holders (C13_completion); nothing is invented (C13_no_junk); C13_restore as _partial (full statement visible, "
-            "evaluated by the oracle on every case).  For the tree as it is the statements are refuted with vm_compute witnesses that reproduce "
-            "on the real code (C13-1 duplicate remote entries + out-of-bounds pointer repair, C13-2 index added once per publishing neighbour); "
-            "the theorems are about the code after fixes/C13-1.patch and C13-2.patch (variant c13_fixed of the same definitions).  The model is tied "
-            "to the code on every run by an MPI harness over generated decompositions (owner/overlap/copy, third-party knowledge, forgotten "
-            "neighbours, P<=4), deletions through RemoteIndexListModifier, both numberers, fixed and arrival order, ASan build; the extracted spec "
-            "is the oracle on the implementation's own dumps.",
+            "C13_repair_total); nothing known before is lost or altered; what a rank believed about a neighbour is completed there with all "
+            "third-party holders (C13_completion); nothing is invented (C13_no_junk); the whole result is independent of the processing order "
+            "(C13_order_independent); for a consistent world W (pairwise intersection of public copies, as C04_spec) and ANY deletion of copies "
+            "with their remote entries such that each deleted copy is still listed by another rank, sync returns exactly W up to the local "
+            "numbers of the re-added pairs, for every order (C13_restore, full).  The code before fixes 30ae05b/23083bc is the variant c13_asis of "
+            "the same definitions; the *_asis_refuted theorems keep its witnesses.  The model is tied to the code on every run by an MPI harness over "
+            "generated decompositions (owner/overlap/copy, third-party knowledge, forgotten neighbours, P<=4), deletions through "
+            "RemoteIndexListModifier, both numberers (call sequence checked), fixed and arrival order, checked / ASan / NDEBUG builds; the extracted "
+            "spec is the oracle on the implementation's own dumps.",
     "note": "Trusted: Coq kernel, extraction, OCaml driver, C++ MPI harness, PMPI shim, OpenMPI; MPI point-to-point semantics and "
             "RemoteIndices::rebuild (C04) are modelled (the harness checks the rebuilt state against the pairwise intersection), not verified.",
     "design_ref": "DESIGN.md section 4 C13",
@@ -263,21 +264,33 @@ def cause_of(asis, fixed):
     return causes or ["remote-dup"]
 
 
-SIG = {"remote-dup": "C13:insertIntoRemoteIndexList:duplicate-entry", "iset-dup": "C13:recvAndUnpack:index-added-twice"}
+def numberer_calls_ok(c, S, exp_D):
+    """The recording numberer must be called exactly once per index that sync adds (fix 23083bc), never for known ones; with a
+    single old neighbour (one message) the calls must come in ascending global order, as indicessyncer.hh documents.
+    -> None or a reason."""
+    if c["num"] == 0:
+        return None                              # sync() without numberer: nothing recorded
+    for r, (sr, dr) in enumerate(zip(S.split(" / "), exp_D.split(" / "))):
+        m = re.search(r" N ?([0-9,]*)$", sr.rstrip())
+        calls = [int(x) for x in m.group(1).split(",") if x] if m else []
+        gs = lambda dump: [int(t.split(".")[0]) for t in dump.split(" R")[0].split()[1:]]
+        new = sorted(set(gs(sr)) - set(gs(dr)))
+        if sorted(calls) != new:
+            return "rank %d: numberer called for %s but the indices added are %s" % (r, calls, new)
+        nnb = len(re.findall(r" \d+:", dr))
+        if nnb == 1 and calls != sorted(calls):
+            return "rank %d: numberer not called in ascending global order within one message: %s" % (r, calls)
+    return None
 
 
-def judge(c, line, impl, m2, exp_B, exp_D, tree_has=None):
+def judge(c, line, impl, m2, exp_B, exp_D):
     """-> (kind, signature, reason) with kind in ok | violation | corr ; impl = raw impl line, m2 = model line with verdicts"""
     sm = split_model(m2)
     if sm is None:
         return "corr", "corr:C13/model", "model driver output unreadable: %s" % m2[:200]
     asis, fixed, fl, vd = sm
-    causes = cause_of(asis, fixed)
-    if tree_has is not None:        # attribute only to warts the probes found in this tree
-        causes = [k for k in causes if tree_has.get(k)]
     if is_noobs(impl):
-        sig = SIG[causes[0]] + ":crash" if causes else "C13:sync:no-result"
-        return "violation", sig, "sync() did not complete on every rank: %s" % impl[:160]
+        return "violation", "C13:sync:no-result", "sync() did not complete on every rank: %s" % impl[:160]
     try:
         B, D, S = [x[2:] for x in impl.split(" # ")]
     except Exception:
@@ -298,25 +311,32 @@ def judge(c, line, impl, m2, exp_B, exp_D, tree_has=None):
         bad.append("restore")          # (with forgotten neighbours the state before the deletion is not the rebuilt one)
     Sx = strip_obs(S)
     if bad:
-        sig = SIG[causes[0]] if causes else "C13:postcondition:" + "+".join(bad)
-        return "violation", sig, "post-condition(s) %s violated by the state after sync" % ",".join(bad)
+        why = ""
+        if Sx == asis and asis != fixed:
+            why = " (the state equals the model of the code BEFORE fixes 30ae05b/23083bc: %s)" % ",".join(cause_of(asis, fixed))
+        return "violation", "C13:postcondition:" + "+".join(bad), "post-condition(s) %s violated by the state after sync%s" % (",".join(bad), why)
+    nr = numberer_calls_ok(c, S, exp_D)
+    if nr:
+        return "violation", "C13:numberer:calls", nr
     if Sx != fixed:
         return "corr", "corr:C13/sync", "impl state after sync differs from the model's (oracle accepts the impl's state)"
     return "ok", "", ""
 
 
-def build(ctx, san=False):
+def build(ctx, san=False, ndebug=False):
     model = V.build_model(ctx)
     jobs = [dict(srcs=HARNESS, out=ctx.path("impl"), mpi=True, opt="-O1")]
     if san:
         jobs.append(dict(srcs=HARNESS, out=ctx.path("impl_san"), mpi=True, san=True))
+    if ndebug:
+        jobs.append(dict(srcs=HARNESS, out=ctx.path("impl_ndebug"), mpi=True, opt="-O2", flags=["-DNDEBUG"]))
     outs = V.cxx_many(ctx, jobs)
-    return model, outs[0], (outs[1] if san else None)
+    return model, outs[0], (outs[1] if san else None), (outs[-1] if ndebug else None)
 
 
 def run(ctx):
     V.coq_stage(ctx)
-    model, impl, impl_san = build(ctx, san=True)
+    model, impl, impl_san, impl_nd = build(ctx, san=True, ndebug=True)
     quick = ctx.quick
     NP = 4
     rng = ctx.rng("gen")
@@ -340,42 +360,8 @@ def run(ctx):
     orders = [orders_of(c, orng) for c in cases]
     ctx.log("generated %d cases (%d corpus)" % (len(cases), ncorp))
 
-    # ---- model first (no impl state yet): tells on which cases the warts of the tree-as-it-is are active
-    m1 = model_lines(ctx, model, cases, orders, [None] * len(cases), "model1")
-    active = []
-    for m in m1:
-        sm = split_model(m)
-        active.append(cause_of(sm[0], sm[1]) if sm else ["?"])
-    # ---- probe: does the tree still have the warts?  (first active case of each kind, corpus first)
-    tree_has = {}
-    for kind in ("remote-dup", "iset-dup"):
-        idx = next((i for i, a in enumerate(active) if a == [kind]), None)
-        if idx is None:
-            idx = next((i for i, a in enumerate(active) if kind in a), None)
-        if idx is None:
-            continue
-        r = run_impl(ctx, impl, NP, [lines[idx]], "probe-" + kind, case_timeout=20)
-        sm = split_model(m1[idx])
-        S = s_of(r[0])
-        tree_has[kind] = (S is None) or (S != sm[1])
-    ctx.log("tree-as-it-is warts present: %s" % tree_has)
-    # ---- choose what to run: on a tree that still has a wart, only a few cases that trigger it (they crash / corrupt)
-    budget = {k: (10 if quick else 30) for k in tree_has if tree_has[k]}
-    sel = []
-    for i, a in enumerate(active):
-        hit = [k for k in a if tree_has.get(k)]
-        if not hit:
-            sel.append(i)
-        elif cases[i]["del"] != "F":
-            # modifier path on a tree whose sync crashes on this case: observe the state after the deletion only
-            cases[i] = dict(cases[i]); cases[i]["del"] = "m"; lines[i] = fmt_case(cases[i]); sel.append(i)
-        elif all(budget.get(k, 0) > 0 for k in hit):
-            for k in hit: budget[k] -= 1
-            sel.append(i)
-    skipped = len(cases) - len(sel)
-    if skipped:
-        ctx.notes.append("%d generated cases on which a known wart of the tree is active were not run on the impl (they crash or corrupt); "
-                         "they run again once the fixes are in" % skipped)
+    sel = list(range(len(cases)))            # every generated case runs on the impl
+    skipped = 0
     sub_lines = [lines[i] for i in sel]
     io = run_impl(ctx, impl, NP, sub_lines, "impl", case_timeout=20 if quick else 40)
     # a timed-out case is re-run once alone before it is believed
@@ -398,7 +384,7 @@ def run(ctx):
     for j, i in enumerate(sel):
         c = cases[i]
         expB, expD = world_after_rebuild(c), world_after_rebuild(c, True)
-        kind, sig, reason = judge(c, lines[i], io[j], m2[j], expB, expD, tree_has)
+        kind, sig, reason = judge(c, lines[i], io[j], m2[j], expB, expD)
         kinds.append(kind)
         sm = split_model(m2[j])
         for k, v in (("P", c["P"]), ("del", c["del"]), ("num", c["num"]), ("fixed", c["fixed"]), ("deleted_copies", min(9, sum(len(d) for d in c["D"]))),
@@ -440,6 +426,19 @@ def run(ctx):
                 if san_bad <= 3:
                     ctx.violation("C13:sanitizer", {"case": sub_lines[j], "impl": io[j], "impl_sanitized_build": l,
                                                     "oracle": "ASan/UBSan build aborts or behaves differently"})
+    # ---- NDEBUG build (assertions off, -O2): same observations on every case
+    nd_n = nd_bad = 0
+    if impl_nd:
+        no = run_impl(ctx, impl_nd, NP, sub_lines, "ndebug", case_timeout=20 if quick else 40, max_bad=6)
+        for j, l in enumerate(no):
+            if l.startswith("NOT-RUN"):
+                continue
+            nd_n += 1
+            if strip_obs(l) != strip_obs(io[j]):      # (the numberer call ORDER may differ with the arrival order)
+                nd_bad += 1
+                if nd_bad <= 3:
+                    ctx.violation("C13:ndebug-build", {"case": sub_lines[j], "impl": io[j], "impl_ndebug_build": l,
+                                                       "oracle": "the NDEBUG -O2 build observes a different state than the checked build"})
     ctx.coverage.update({
         "evaluations": len(sel), "distinct_nontrivial": len(nontrivial),
         "rule": "cases = corpus + seeded decompositions (P<=4, <=10 globals, shapes random/chain/star/all/third-party, one owner per global, "
@@ -447,10 +446,12 @@ def run(ctx):
                 "useFixedOrder x deletion path {free functions, RemoteIndexListModifier<true>} x PMPI seed + all 2^k deletion subsets of one 3-rank decomposition; "
                 "non-trivial = P>1 and at least one copy deleted; distinct = distinct case lines",
         "samples": [lines[i] for i in sel[:2]] + [lines[i] for i in sel[len(sel) // 2: len(sel) // 2 + 2]],
-        "distribution": dist, "generated": len(cases), "not_run_because_known_wart_active": skipped,
-        "tree_has_wart": tree_has, "oracle_rejections": nviol, "impl_model_disagreements_accepted_by_oracle": ncorr,
+        "distribution": dist, "generated": len(cases),
+        "oracle_rejections": nviol, "impl_model_disagreements_accepted_by_oracle": ncorr,
         "model_order_dependent_cases": oi_bad, "publish_count_mismatch_cases": cnt_bad,
-        "sanitizer_cases": san_n, "sanitizer_disagreements": san_bad, "exhaustive": False,
+        "sanitizer_cases": san_n, "sanitizer_disagreements": san_bad, "ndebug_cases": nd_n, "ndebug_disagreements": nd_bad,
+        "numberer_call_sequences_checked": sum(1 for j, i in enumerate(sel) if cases[i]["num"] != 0 and kinds[j] == "ok" and cases[i]["del"] != "m"),
+        "exhaustive": False,
         "traces_validated_against_impl": len(sel) - nviol - ncorr,
     })
     ctx.assumptions += ["RemoteIndices::rebuild is checked against the pairwise-intersection semantics on every case, not verified here (C04)",
@@ -462,7 +463,7 @@ def replay(ctx, path):
     rep = json.load(open(path))
     line = rep["case"]
     c = parse_case(line)
-    model, impl, _ = build(ctx)
+    model, impl, _, _ = build(ctx)
     io = run_impl(ctx, impl, 4, [line], "rimpl", case_timeout=30)
     orders = rep.get("orders") or orders_of(c, ctx.rng("orders-replay"))
     S = s_of(io[0])
